@@ -1,3 +1,8 @@
+# ASan options of ./check plus a 16 MB quarantine: every evaluation builds and frees a Stepper, and
+# with the default 256 MB quarantine the freed memory is never reused (measured 6x slower, half
+# of it page-fault system time).  Use-after-free within the last 16 MB of frees is still caught.
+_ASAN = ("halt_on_error=0:detect_leaks=0:abort_on_error=0:handle_abort=0:allocator_may_return_null=1:"
+         "detect_stack_use_after_return=0:quarantine_size_mb=16")
 CHECK = {
     "level": "fault_enumeration",
     "rule": ("every explored event history (E1: all interaction-outcome sequences with <= 2/3 deviations "
@@ -33,9 +38,9 @@ CHECK = {
                "thorough": {"deviations_secondary": 2, "deviations_initializer_order_none": 3,
                             "deviations_initializer_other_orders": 2}},
     "parts": [
-        {"name": "secondary", "harness": "c16_exhaust", "flavour": "asan",
+        {"name": "secondary", "harness": "c16_exhaust", "flavour": "asan", "env": {"ASAN_OPTIONS": _ASAN},
          "shards": {"quick": 16, "thorough": 16}, "deadline": {"quick": 100, "thorough": 1200}},
-        {"name": "initializer", "harness": "c16_exhaust", "flavour": "asan",
+        {"name": "initializer", "harness": "c16_exhaust", "flavour": "asan", "env": {"ASAN_OPTIONS": _ASAN},
          "shards": {"quick": 16, "thorough": 16}, "deadline": {"quick": 60, "thorough": 600}},
     ],
 }
